@@ -1030,6 +1030,21 @@ void Validator::ValidatorImpl::validateComponent(const ComponentPtr &component, 
                     history.push_back(h);
                     modelsVisited.push_back(importModel);
                     validateComponent(importedComponent, history, modelsVisited);
+                    // The encapsulated descendants of an imported component are imported with it. Descendants that
+                    // are imports themselves are left out: following them from here confuses the cycle detection,
+                    // which compares relative locations (tests Validator.z*ImportThatIllustratesBadPractice).
+                    std::vector<ComponentPtr> descendants = {importedComponent};
+                    while (!descendants.empty()) {
+                        auto parent = descendants.back();
+                        descendants.pop_back();
+                        for (size_t i = 0; i < parent->componentCount(); ++i) {
+                            auto child = parent->component(i);
+                            if (!child->isImport()) {
+                                validateComponent(child, history, modelsVisited);
+                            }
+                            descendants.push_back(child);
+                        }
+                    }
                     modelsVisited.pop_back();
                 }
                 history.pop_back();
